@@ -5,6 +5,7 @@ import (
 	"bytes"
 	"context"
 	"fmt"
+	"io"
 	"os"
 	"path/filepath"
 	"runtime"
@@ -125,7 +126,7 @@ func runC03(cases []string, out *bufio.Writer, _ []string) {
 		cfg := map[string]string{"logger.lg.type": "Logger", "logger.lg.tags": "_c03_*", "logger.lg.appenderRef.ref": "a", "appender.a.layout.type": layName,
 			"enableCaller": "false", "bufferCap": f[4]}
 		switch sink {
-		case "console":
+		case "console", "pipe":
 			cfg["appender.a.type"] = "Console"
 		case "file":
 			cfg["appender.a.type"], cfg["appender.a.fileDir"], cfg["appender.a.fileName"] = "File", dir, "a.log"
@@ -135,6 +136,38 @@ func runC03(cases []string, out *bufio.Writer, _ []string) {
 		}
 		ss := &slowSink{chunk: chunk}
 		log.Stdout = ss
+		// sink "pipe": the console is a real pipe (an *os.File that supports deadlines) whose reader stalls for 2.2 s three times while the pipe is full, taking 40 KB in between
+		var pipeW *os.File
+		var pipeData bytes.Buffer
+		pipeDone := make(chan struct{})
+		if sink == "pipe" {
+			r, w, err := os.Pipe()
+			if err != nil {
+				fmt.Fprintln(out, "pipe-error")
+				continue
+			}
+			pipeW = w
+			log.Stdout = w
+			go func() {
+				defer close(pipeDone)
+				buf := make([]byte, 32*1024)
+				for i := 0; i < 3; i++ { // three stalls of 2.2 s, 40 KB consumed in between
+					time.Sleep(2200 * time.Millisecond)
+					n, _ := io.ReadFull(r, buf[:20*1024])
+					pipeData.Write(buf[:n])
+					n, _ = io.ReadFull(r, buf[:20*1024])
+					pipeData.Write(buf[:n])
+				}
+				for {
+					n, err := r.Read(buf)
+					pipeData.Write(buf[:n])
+					if err != nil {
+						r.Close()
+						return
+					}
+				}
+			}()
+		}
 		withCtx := len(f) > 8 && f[8] == "1"
 		sharedCtx := make([]log.Field, 2, 16)
 		sharedCtx[0], sharedCtx[1] = log.String("req", "r-1"), log.Int("tenant", 42)
@@ -166,7 +199,11 @@ func runC03(cases []string, out *bufio.Writer, _ []string) {
 		log.FieldsFromContext = nil
 		var data []byte
 		writes := -1
-		if sink == "console" {
+		if sink == "pipe" {
+			pipeW.Close()
+			<-pipeDone
+			data = pipeData.Bytes()
+		} else if sink == "console" {
 			data, writes = ss.buf.Bytes(), ss.writes
 		} else {
 			ents, _ := os.ReadDir(dir)
